@@ -258,7 +258,7 @@ pub fn run(ctx: &Ctx, rep: &mut Report) {
     // enumerated compositions: depth 1, 2 (quick) and 3 (thorough); per composition several
     // (shape, arity, leaf) samples chosen by the seeded PRNG
     let max_depth = if ctx.quick() { 2 } else { 3 };
-    let per_comp = if ctx.quick() { 3 } else { 6 };
+    let per_comp = if ctx.quick() { 3 } else { 4 };
     let mut comps: Vec<Vec<usize>> = vec![];
     for d in 1..=max_depth {
         let total = nc.pow(d as u32);
@@ -292,7 +292,8 @@ pub fn run(ctx: &Ctx, rep: &mut Report) {
         let chains_continuations = prog.tags.iter().any(|t| t == "call/cc-direct");
         let ns_used: Vec<u64> = if chains_continuations {
             vec![10, 1_000, 10_000]
-        } else if has_eval && ctx.quick() {
+        } else if has_eval {
+            // a compilation per iteration: 20000 iterations are as telling as 100000 and five times cheaper
             vec![10, 1_000, 20_000]
         } else {
             ns.to_vec()
